@@ -76,6 +76,17 @@ def bounds(a):
     return a[0][0], a[-1][1]
 
 
+_ARITH_TRAITS = {
+    "std::ops::Sub": ("sub", "Sub"),
+    "std::ops::Add": ("add", "Add"),
+    "std::ops::Shl": ("shl", "Shl"),
+    "std::ops::Shr": ("shr", "Shr"),
+    "std::ops::BitOr": ("bitor", "BitOr"),
+    "std::ops::BitAnd": ("bitand", "BitAnd"),
+    "std::ops::Mul": ("mul", "Mul"),
+}
+
+
 class Interval:
     def __init__(self, body, params=None):
         self.body = body
@@ -115,7 +126,15 @@ class Interval:
                 return v
             if len(p["pr"]) == 1 and p["pr"][0]["k"] == "field":
                 return st.get((p["l"], p["pr"][0]["name"]))
+            if len(p["pr"]) == 1 and p["pr"][0]["k"] == "deref":
+                return st.get((p["l"], "*"))
         return None
+
+    def val_or_pointee(self, st, op):
+        """Value of an integer operand, or of the integer a `&uN` operand points to when that is known."""
+        if is_place(op) and not op["p"]["pr"] and self.body.local_ty(op["p"]["l"]).startswith("&"):
+            return st.get((op["p"]["l"], "*"))
+        return self.val(st, op)
 
     def clamp(self, ivs, ty):
         r = INT_RANGE.get(ty)
@@ -216,6 +235,8 @@ class Interval:
 
     def transfer_call(self, st, t):
         f = fn_of(t)
+        if t.get("line") is not None:
+            self._cur_line = t["line"]
         dest = t["dest"]
         if dest["pr"]:
             st.pop(dest["l"], None)
@@ -232,6 +253,34 @@ class Interval:
             cv = self.clamp(v, dty) if v is not None else None
             if cv is not None:
                 st[d] = cv
+        elif f.get("name") in ("start", "end") and "std::ops::RangeInclusive" in f["def"] and len(t["args"]) == 1:
+            # `CONST_RANGE.start()`: a reference to a known bound
+            rng = self._const_behind(None, t["args"][0])
+            if rng and rng.get("ref_fields_complete") and isinstance(rng["ref_fields"].get(f["name"]), int):
+                v = rng["ref_fields"][f["name"]]
+                st[(d, "*")] = ((v, v),)
+        elif f.get("trait") in _ARITH_TRAITS and f.get("name") == _ARITH_TRAITS[f["trait"]][0] and len(t["args"]) == 2 and dty in INT_RANGE:
+            # `a - *r` written as `a - r`: the operator impls of the primitive integers between values and references
+            tys = [self.body.local_ty(a["p"]["l"]).lstrip("&") if is_place(a) and not a["p"]["pr"] else dty for a in t["args"]]
+            if all(x == dty for x in tys):
+                res = self.arith(_ARITH_TRAITS[f["trait"]][1], self.val_or_pointee(st, t["args"][0]), self.val_or_pointee(st, t["args"][1]), dty)
+                if res is not None:
+                    st[d] = res
+        elif f.get("trait") in ("std::convert::TryFrom", "std::convert::TryInto") and len(t["args"]) == 1:
+            # `uN::try_from(x)`: Ok(x) exactly when x fits
+            m = re.match(r"^std::result::Result<(\w+), ", dty)
+            v = self.val(st, t["args"][0])
+            if m and m.group(1) in INT_RANGE and v is not None:
+                lo, hi = INT_RANGE[m.group(1)]
+                fit = intersect(v, lo, hi)
+                if fit:
+                    st[(d, "ok")] = fit
+        elif f["def"] in ("std::result::Result::<T, E>::expect", "std::result::Result::<T, E>::unwrap") and t["args"] and is_place(t["args"][0]) and not t["args"][0]["p"]["pr"] and dty in INT_RANGE:
+            v = st.get((t["args"][0]["p"]["l"], "ok"))
+            if v is not None:
+                st[d] = v
+        elif f.get("local") and dty in INT_RANGE and ret_summary(self.body.crate, f) is not None:
+            st[d] = ret_summary(self.body.crate, f)
         elif f["def"] in ("std::cmp::min", "std::cmp::Ord::min") and len(t["args"]) == 2 and dty in INT_RANGE:
             a = self.val(st, t["args"][0])
             b = self.val(st, t["args"][1])
@@ -404,9 +453,12 @@ class Interval:
             elif op == "Eq":
                 apply(la, blo, bhi)
             elif op == "Ne" and blo == bhi:
-                nv = remove(st.get(la), blo, bhi, self.ty_range(la))
-                if nv is not None:
-                    st[la] = nv
+                for tv in (la, getattr(self, "_alias", {}).get(la)):
+                    if tv is None:
+                        continue
+                    nv = remove(st.get(tv), blo, bhi, self.ty_range(tv))
+                    if nv is not None:
+                        st[tv] = nv
         if lb is not None and va is not None:
             alo, ahi = bounds(va)
             if op == "Lt":  # a < b  => b > alo
@@ -420,9 +472,12 @@ class Interval:
             elif op == "Eq":
                 apply(lb, alo, ahi)
             elif op == "Ne" and alo == ahi:
-                nv = remove(st.get(lb), alo, ahi, self.ty_range(lb))
-                if nv is not None:
-                    st[lb] = nv
+                for tv in (lb, getattr(self, "_alias", {}).get(lb)):
+                    if tv is None:
+                        continue
+                    nv = remove(st.get(tv), alo, ahi, self.ty_range(tv))
+                    if nv is not None:
+                        st[tv] = nv
         return st
 
     # -- fixpoint
@@ -571,7 +626,7 @@ class Interval:
             st = self.join(st, self.threaded[bb])
         for s in self.body.blocks[bb]["stmts"]:
             self.transfer_stmt(st, s)
-        return self.val(st, op)
+        return self.val_or_pointee(st, op)
 
 
 _SUMMARIES = {}
@@ -630,6 +685,33 @@ def bool_summary(crate, f):
             return None
     _SUMMARIES[key] = (tset, fset)
     return _SUMMARIES[key]
+
+
+_RET = {}
+
+
+def ret_summary(crate, f):
+    """Intervals of the integer a same-crate function returns, whatever it is given (None when nothing better than
+    the type's range is known)."""
+    b = crate.by_id.get(f.get("resolved") or f.get("def"))
+    if b is None:
+        return None
+    key = (id(crate), b.id)
+    if key in _RET:
+        return _RET[key]
+    _RET[key] = None  # recursion guard
+    if b.local_ty(0) not in INT_RANGE:
+        return None
+    iv = Interval(b)
+    acc = ()
+    for st in iv.return_states:
+        v = st.get(0)
+        if v is None:
+            return None
+        acc = union(acc, v) if acc != () else v
+    if acc and acc != (INT_RANGE[b.local_ty(0)],):
+        _RET[key] = acc
+    return _RET[key]
 
 
 _FOR_BODY = {}
